@@ -56,6 +56,8 @@ type checker struct {
 	verif    string
 	bin      string
 	binPlain string
+	bin386   string // 32-bit build of the plain runner ("" if unavailable or not applicable)
+	n386     int
 	build    string
 	entry    props.Entry
 	desc     kit.Description
@@ -86,6 +88,7 @@ func cmdCheck(args []string) int {
 	verif := fs.String("verif", "/verif", "")
 	binPlain := fs.String("bin-plain", "", "")
 	binRace := fs.String("bin-race", "", "")
+	bin386 := fs.String("bin-386", "", "")
 	_ = fs.Parse(args)
 	tierGiven := false
 	fs.Visit(func(f *flag.Flag) {
@@ -129,6 +132,9 @@ func cmdCheck(args []string) int {
 	c.desc = eng.Describe()
 	c.bin = *binPlain
 	c.binPlain = *binPlain
+	if _, err := os.Stat(*bin386); err == nil && !c.desc.NeedsRace {
+		c.bin386 = *bin386
+	}
 	if c.desc.NeedsRace {
 		c.bin = *binRace
 	}
@@ -165,7 +171,11 @@ func (c *checker) spawn(tag string, args ...string) ([]byte, string, int) {
 	}
 	ctx, cancel := context.WithTimeout(context.Background(), limit)
 	defer cancel()
-	cmd := exec.CommandContext(ctx, c.bin, args...)
+	bin := c.bin
+	if strings.HasPrefix(tag, "x86-") && c.bin386 != "" {
+		bin = c.bin386
+	}
+	cmd := exec.CommandContext(ctx, bin, args...)
 	var so, se bytes.Buffer
 	cmd.Stdout, cmd.Stderr = &so, &se
 	cmd.Env = append(c.raceEnv(filepath.Join(c.outDir(), "race-"+tag)), "VERIF_CRASH_FILE="+filepath.Join(c.outDir(), "crash-"+tag+".json"))
@@ -204,6 +214,9 @@ func (c *checker) replayOnce(path string) (*ReplayResult, int, string) {
 
 func (c *checker) replayFile(path string) int {
 	_ = os.MkdirAll(c.outDir(), 0o755)
+	if t, err := kit.ReadTrace(path); err == nil && t.Cfg("goarch_386", 0) == 1 && c.bin386 != "" {
+		c.bin = c.bin386
+	}
 	rr, code, se := c.replayOnce(path)
 	if t, err := kit.ReadTrace(path); err == nil && t.Cfg("attempts", 1) > 1 {
 		for a := int64(1); a < t.Cfg("attempts", 1) && (rr == nil || rr.Viol == nil); a++ {
@@ -342,7 +355,11 @@ func (c *checker) run() int {
 		go func(w int) {
 			defer wg.Done()
 			out := filepath.Join(c.outDir(), fmt.Sprintf("w%d.json", w))
-			_, se, code := c.spawn(fmt.Sprintf("w%d", w), "work", "--prop", c.id, "--seed", fmt.Sprint(c.seed), "--start", fmt.Sprint(w), "--stride", fmt.Sprint(c.workers), "--count", fmt.Sprint(per), "--deadline", fmt.Sprint(deadline), "--out", out, "--known", c.knownKs, "--marker", filepath.Join(c.outDir(), fmt.Sprintf("marker-w%d", w)))
+			tag := fmt.Sprintf("w%d", w)
+			if c.bin386 != "" && w%8 == 7 {
+				tag = "x86-" + tag // the same seeds stride, on a 32-bit build
+			}
+			_, se, code := c.spawn(tag, "work", "--prop", c.id, "--seed", fmt.Sprint(c.seed), "--start", fmt.Sprint(w), "--stride", fmt.Sprint(c.workers), "--count", fmt.Sprint(per), "--deadline", fmt.Sprint(deadline), "--out", out, "--known", c.knownKs, "--marker", filepath.Join(c.outDir(), "marker-"+tag))
 			codes[w] = code
 			errs[w] = se
 			if code != 0 {
@@ -364,7 +381,11 @@ func (c *checker) run() int {
 	wg.Wait()
 	for w := range results {
 		if codes[w] != 0 {
-			return c.workerCrash(fmt.Sprintf("w%d", w), codes[w], errs[w])
+			tag := fmt.Sprintf("w%d", w)
+			if c.bin386 != "" && w%8 == 7 {
+				tag = "x86-" + tag
+			}
+			return c.workerCrash(tag, codes[w], errs[w])
 		}
 	}
 
@@ -392,6 +413,9 @@ func (c *checker) run() int {
 			failure = r.Failure
 			c.failW = r
 		}
+		if r.Arch == "386" {
+			c.n386++
+		}
 		if len(samples) < 3 && len(r.Samples) > 0 {
 			samples = append(samples, r.Samples[0])
 		}
@@ -409,6 +433,14 @@ func (c *checker) run() int {
 		}
 	}
 	if failure != nil {
+		if c.failW != nil && c.failW.Arch == "386" && c.bin386 != "" {
+			// found on the 32-bit build: replay and minimise there
+			c.bin = c.bin386
+			if failure.Config == nil {
+				failure.Config = map[string]int64{}
+			}
+			failure.Config["goarch_386"] = 1
+		}
 		c.distinctAtFailure = len(sigs)
 		return c.handleFailure(failure, agg)
 	}
@@ -777,6 +809,7 @@ func (c *checker) writeEvidence(agg *kit.Stats, distinct int, shift uint, sample
 		"real_vs_stub":        c.desc.RealVsStub,
 		"run_seed_derivation": fmt.Sprintf("run i uses Mix(VERIF_SEED=%d, i), i = 0..%d (stride over %d worker processes)", c.seed, agg.Runs-1, c.workers),
 		"workers":             c.workers,
+		"configurations":      map[string]int{"linux/amd64 worker processes": c.workers - c.n386, "linux/386 worker processes (32-bit int)": c.n386},
 		"depth_factor":        map[string]int{"quick": 1, "thorough": 3}[c.tier],
 		"exhaustive":          false,
 	}
